@@ -76,6 +76,8 @@ def variants(rng, accepts, unit, name, quick):
             if f == 'csr' and dt == 'int':
                 continue
             out.append((f, dt))
+    # the same integers / reals in narrower storage types (weights are 1..5: representable in each of them)
+    out += [('csr', 'float32'), ('csr', 'int32'), ('csr', 'uint8'), ('csr', 'int8')]
     if unit or base_name(name) not in DISCRETE:
         out.append(('csr_unsorted', 'int'))
         out.append(('csr_unsorted', 'float'))
@@ -162,6 +164,10 @@ def run(ctx, scratch):
                         # select other neighbours, an equally valid sample (only the argument snapshot is judged here)
                         continue
                     rt, at = (2e-3, 2e-4) if (name in ('PageRank[diteration]', 'PageRank[push]') and fmt in ('csr_unsorted', 'csr_shuffled')) else (1e-6, 1e-8)
+                    if name == 'PageRank[push]' and fmt in ('csr_unsorted', 'csr_shuffled'):
+                        rt, at = 5e-3, 5e-4       # the push work-list stops at a residual threshold: the order of the pushes moves the result by about that much
+                    if dt == 'float32' and (rt, at) == (1e-6, 1e-8):
+                        rt, at = 2e-4, 2e-5      # single-precision input: round-off of the input's own arithmetic
                     bad = compare(base['ok'], out['ok'], rtol=rt, atol=at, skip_tags=skip)   # float32 sweep kernels: the sweep order follows the storage order
                     if base_name(name) in CLASSIFIERS:
                         bad = [(k, why) for (k, why) in bad if not (k.startswith('labels') and margin_ok(base['ok'], out['ok'], k))]
